@@ -253,6 +253,29 @@ def run(ctx):
             if isinstance(r, Err) or r:
                 found.append({"key": {"seq": rq[1][0], "struct": "".join(rq[1][1]), "ops": rq[1][2]}, "input": rq[1],
                               "what": str(r), "snippet": f"# harness op c03_fresh_compare {rq[1]!r} (harness/impl/views.py)"})
+        # the argument lists stay the caller's: edits of them after construction do not reach the object (drawn last)
+        creqs = []
+        for _ in range(120 if quick else 3000):
+            s_ = rng.choice(structs) if rng.random() < 0.8 else gs.random_wf(rng, 12, p_break=0.25)
+            sq_ = gs.seq_for(rng, s_, names=("a", "b", "c"))
+            as_strand = rng.random() < 0.25
+            edits = [[0 if as_strand else rng.randrange(2), rng.choice(["pop", "pop0", "clear", "reverse", "append", "swap"])]
+                     for _ in range(rng.randrange(1, 4))]
+            creqs.append(("c03_caller_lists", [[x for x in sq_ if x != "+"] if as_strand else sq_, list(s_), edits, as_strand]))
+        for rq, r in zip(creqs, run_impl(creqs)):
+            if isinstance(r, Err):
+                if r.kind not in ("SingletonError", "ObjectInitError"):
+                    found.append({"key": {"caller_lists": rq[1]}, "input": {"caller_lists": rq[1]}, "what": f"raised {r.kind}",
+                                  "snippet": f"# harness op c03_caller_lists {rq[1]!r} (harness/impl/views.py)"})
+            elif r:
+                kind_ = "StrandS(seq)" if rq[1][3] else "ComplexS(seq, struct)"
+                found.append({"key": {"caller_lists": rq[1]}, "input": {"caller_lists": rq[1]},
+                              "what": f"{kind_} follows the caller's own argument list: {r[0][0]}: shows {r[0][1]} instead of {r[0][2]}",
+                              "snippet": "from dsdobjects.base_classes import DomainS, ComplexS\na=DomainS('a',5); b=DomainS('b',5)\n"
+                                         "seq=[a,b]; st=list('..'); c=ComplexS(seq, st, 'X'); seq.pop(); st.pop()\n"
+                                         "print(list(map(str,c.sequence)), list(c.structure), c.canonical_form)   # harness op c03_caller_lists "
+                                         + repr(rq[1])})
+        ctx.cov["correspondence"]["caller-argument-lists(impl)"] = {"cases": len(creqs)}
         impl = run_impl(reqs[:3000])
         for rq, r in zip(reqs[:3000], impl):
             if isinstance(r, Err):
@@ -277,6 +300,10 @@ def replay(data):
     inp = data.get("input")
     if not inp:
         print(json.dumps(data.get("broken_links"))[:2000]); return 1
+    if isinstance(inp, dict) and "caller_lists" in inp:
+        r = run_impl([("c03_caller_lists", inp["caller_lists"])])[0]
+        print(r)
+        return 1 if (isinstance(r, Err) or r) else 0
     if isinstance(inp, dict):
         inp = inp.get("history")
     r = run_impl([("c03_history", inp)])[0]
